@@ -23,10 +23,24 @@ Monitors
   snl-batch/...   one SNL PDU with several SDREQs sent through a raw access point: every SDRES seen on the wire is
                   judged against the peer's table (no resolver, no cache in between)
   invariant/...   structure of llc.sap / llc.snl after every operation (single-threaded at that moment)
+  concurrent/...  groups of 2..6 application threads, each with its own socket on one controller, call bind (anonymous,
+                  by address, by name), listen / sendto / connect on an unbound socket (implicit bind) or close at the
+                  same time while the harness thread keeps the link turning.  A harness-side stand-in for llc.lock
+                  (LockGate, delegates to the real lock) brings all members to the controller's lock before the first
+                  one enters (the situation whenever the run loop holds the lock while applications call in) and then
+                  admits them in a drawn order; other schedules: lock held by the harness while the members arrive and
+                  released to whoever wins, or no forcing at all with random yields at lock acquisitions.  At
+                  quiescence (all members returned) the outcomes must be explained by SOME sequential order of the
+                  operations on the address model, open sockets report pairwise distinct addresses, and a datagram the
+                  peer sends to each newly bound address is received by exactly that socket
+  resolve-batch/. (continued) batches of 4..10 resolve() calls for 59..245 octet names: only 1..4 requests fit one SNL
+                  PDU, the answers come back in several SNL PDUs while the other callers still wait; staggered
+                  batches start the calls one link half-turn apart.  Verdict per call as for a single resolve
 After a complaint the addresses / names involved are tainted: the model predicts nothing about them any more, so one
 defect yields its own signature(s) and the history continues on the rest of the table.
 """
 import errno
+import random
 import threading
 import time
 
@@ -38,6 +52,10 @@ LEVEL = "exploration"
 RULE = ("cases = operation histories on two link controllers: (a) all sequences of up to 3 (thorough: 4) symbols over "
         "a 19-symbol alphabet of bind/listen/close/resolve/connect/sendto/close-again/resolve-batch/SNL-batch "
         "operations on 6 socket slots, in the quick tier also all 4-symbol sequences that end in close-again, "
+        "(c) random histories of profile 'threads' in which groups of 2-6 application threads operate on their own "
+        "sockets of one controller at the same time (member operations, shared / contested addresses and names, "
+        "schedule mode, admission order and yield seed are part of the case) and batches of resolve() calls for long "
+        "names are spread over several SNL PDUs, "
         "(b) random "
         "histories of ~60-110 operations drawn from 7 profiles (mixed, names life cycle, named-address exhaustion, "
         "dynamic exhaustion, well-known names + raw access points, datagrams, several connections per listener) with "
@@ -53,16 +71,29 @@ ASSUMPTIONS = ["vf.ref.addr_model is a faithful reading of the LLCP address plan
                "the link stays up; no operations on closed sockets other than close(); no UI traffic to connection-mode SAPs",
                "transaction ids of harness-made SNL PDUs avoid the ones the local resolver has used (adapter reads "
                "ServiceDiscovery.sent); the start order of batched resolve() helpers is synchronised on "
-               "ServiceDiscovery.sdreq (adapter, never a verdict)"]
+               "ServiceDiscovery.sdreq (adapter, never a verdict)",
+               "concurrent groups: every member thread works on its own socket (no two threads on one socket); the "
+               "harness replaces the attribute llc.lock by a delegating wrapper while a group runs (adapter: if nfcpy "
+               "stops taking llc.lock in a bind path the window counters stay 0 and the run is inconclusive); thread "
+               "schedules other than the forced ones are whatever the interpreter does (counted, not enumerated)"]
 REQUIRED = ["op_bind", "op_resolve", "op_connect", "op_sendto", "op_close", "datagrams_delivered", "resolves_answered",
             "connect_by_name_success", "connect_by_name_refused", "invariant_evaluations", "exhaustion_episodes",
             "reuse_episodes", "judged_bind", "op_reclose", "reclose_address_reused", "reclose_beside_listener",
             "reclose_accepted_socket", "reclose_twice", "resolve_batches_in_one_snl", "batch_present_before_absent",
-            "judged_resolve_batch", "snl_batches_in_one_pdu", "judged_snl_batch"]
+            "judged_resolve_batch", "snl_batches_in_one_pdu", "judged_snl_batch",
+            # concurrent application threads (phase c)
+            "op_cgroup", "cgroup_judged", "cgroup_window_all_at_lock", "cgroup_window_anonymous_pair",
+            "cgroup_window_same_address_pair", "cgroup_window_same_name_pair", "cgroup_new_lock_order",
+            "cgroup_overlapping_pairs", "cgroup_implicit_binds", "cgroup_one_winner_same_address",
+            "cgroup_one_winner_same_name", "cgroup_close_beside_bind", "cgroup_mode_chain", "cgroup_mode_held",
+            "cgroup_mode_free", "cgroup_probe_delivered", "cgroup_last_addresses_contested",
+            "resolve_batches_split_over_several_snl", "resolve_batch_answers_in_several_snl", "resolve_foreign_wakeups",
+            "resolve_batches_staggered"]
 
 TURN_LIMIT = 4000
 IDLE_LIMIT = 12
 WALL_GUARD = 8.0     # seconds of real time a helper thread may need to be scheduled (never a verdict)
+GROUP_GUARD = 30.0   # the same for the members of a concurrent group (nothing they call can block on the peer)
 
 KIND = {"ldl": None, "dlc": None, "raw": None}   # filled lazily (needs nfc on sys.path)
 
